@@ -57,14 +57,27 @@ mutual
     | a :: rest => a.size + sizeArgs rest
 end
 
-/-- The tree the parser is expected to build from the text `SetTimeRange` prints. -/
-def expectedTree (tbl : List (Char × Char)) (c : Expr) (w : Window) : Expr :=
-  .binary .AND (.binary .AND (rewriteNoTime tbl c) (geBound w.start)) (ltBound w.stop)
+/-- The rewritten condition as it is grouped before ` AND <window>` is appended: inside a
+parenthesis node exactly when its top node is an `OR`. This is the tree whose print is
+`rewrittenText` (`rewrittenText_eq_print` in Lemmas/SetTimeRange.lean). Its top node is never an `OR`. -/
+def groupForAnd (e : Expr) : Expr := if topIsOr e then .paren e else e
 
-/-- **Print → parse hypothesis** (what C02/C03 would provide for this fragment): the printed
-rewritten condition, followed by ` AND time >= '…' AND time < '…'`, parses to the rewritten
-condition conjoined with the two bounds. It fails when the rewritten condition has an
-unparenthesised `OR` at the top (see `top_level_or_regroups`). -/
+/-- One more node when the parentheses are added. -/
+def parenCost (tbl : List (Char × Char)) (c : Expr) : Nat :=
+  if topIsOr (rewriteNoTime tbl c) then 1 else 0
+
+/-- The tree the text `SetTimeRange` prints was printed from: the (grouped) rewritten condition
+conjoined with the two bounds. -/
+def expectedTree (tbl : List (Char × Char)) (c : Expr) (w : Window) : Expr :=
+  .binary .AND (.binary .AND (groupForAnd (rewriteNoTime tbl c)) (geBound w.start)) (ltBound w.stop)
+
+/-- **Print → parse hypothesis** (what C02/C03 would provide for this fragment): the text
+`<grouped rewritten condition> AND time >= '…' AND time < '…'` parses to the tree it is the print
+of. Since the fix of C18-top-level-or-captures-the-window the left operand is never an
+unparenthesised `OR`, so nothing about the top operator of the condition is assumed any more: the
+hypothesis is the plain round trip `parse (print T) = T` on `T = expectedTree`, and it holds for a
+top-level `OR` as for any other condition (`C18.top_level_or_keeps_window` checks one in the
+kernel). It can only fail where printing itself loses grouping (C02/C03 finding: `n % -a`). -/
 def RT (tbl : List (Char × Char)) (c : Expr) (w : Window) : Prop :=
   parseExprText (setTimeRangeText tbl (some c) w) [] tbl = .ok (expectedTree tbl c w)
 
